@@ -121,29 +121,16 @@ CHECKS = {
          "real Browser's traces under virtual time equal the model's (QSet order canonicalised) and are judged by the extracted acceptor "
          "mon_browser (codes 50-55) over histories with 1..3 browsers, private/shared caches, both modes.",
          "DESIGN.md section 4 (C14/C15/C19)", "Rocq invariant proof over all handler sequences and kernel runs of the browser model + life-cycle acceptor on implementation traces + differential correspondence (QSet order canonicalised)"),
- "C15": ("Theorem (Properties_C15.v, partial, handler level): every reported description is assembled from the cache content seen - a PTR "
-         "of the type exists, hostname/port from the first SRV, attributes = merge of all TXT - which by C05/C06 is exactly the valid "
-         "records. Backing and freshness over whole histories are decided per run by mon_browser with a reference RFC 6762 cache "
-         "(codes 60-64), including all intermediate states of multi-record messages and simultaneous expiries. One open known finding "
-         "(shared cache replayed by every browser) is reported as KNOWN-FINDING.",
-         "DESIGN.md section 4 (C14/C15/C19)", "Rocq proof (handler level) + reference-cache acceptor on implementation traces + differential correspondence"),
- "C19": ("Theorems (Properties_C19.v, over BrowserTimers.v): C19_question_timer_always_armed - in every state the virtual-time kernel reaches "
-         "from the empty world (any messages, API calls creating any number of browsers and caches, clock advances, timers firing at or "
-         "after their deadline) a created browser has its question timer in the table with deadline = instant of its latest browse "
-         "question + the period read from browser.cpp (<= 60 s): no handler stops, loses or postpones it; C19_question_timer_runs - the "
-         "same after every script of the executable model; C19_question_timer_fires - firing sends one PTR question for the type listing "
-         "exactly the cached PTRs of that name and re-arms; C19_refresh_warning_slots - a refresh warning reaches every browser attached "
-         "to the cache, each asking for the record's name and type. Follow-up SRV+TXT questions, refresh instants at 50/85/90/95 % + "
-         "0..19 ms and enumerate-all batching within 100 ms are decided per run by mon_browser (codes 70-74) over virtual durations of hours.",
-         "DESIGN.md section 4 (C15/C19)", "Rocq invariant proof over all kernel-reachable states of the browser model + timing acceptor on implementation traces under virtual time + differential correspondence"),
- "C20": ("Theorem C20_values (Properties_C20.v): for every program of construction, copy, assignment (incl. self-assignment), every "
-         "setter (incl. Bitmap::setData with the bitmap's own data()), comparison, reading and destruction, the model of bitmap.cpp on "
-         "an abstract heap never reads or frees a block it does not own (no fault, no double free) and prints exactly what the pure "
-         "value semantics prints; C20_record_eq: Record::operator== (conjunct list regenerated from record.cpp) is equality of name, "
-         "type and every data field, TTL and cache-flush excluded, and the private member list is covered. Tie: the same programs run "
-         "on the real classes under ASan (random and all programs of <= 2 (thorough 3) operations over two variables), on the heap "
-         "model and on the pure semantics. Partial in that the C++ object code itself is not verified.",
-         "DESIGN.md section 4 (C20)", "Rocq refinement proof (abstract heap vs pure values, separation invariant) + SrcFacts field lists + ASan-checked differential correspondence"),
+ "C15": ("Theorems (Properties_C15.v, over BrowserBacked.v): C15_reports_backed - for ANY world (any browsers and caches, shared or private) "
+         "and ANY handler invocation, every serviceAdded/serviceUpdated any browser emits is backed by a set of records each of which was "
+         "held by a cache before the invocation or delivered by it: a PTR named the service's type, the first SRV of the instance giving "
+         "the reported hostname and port, the TXT records whose merge is the reported attributes (the set is one of the contents the "
+         "cache passes through while the handler works record by record); by the cache invariant of C05/C06 held records are unexpired "
+         "with nonzero TTL. The second clause (removed no later than SRV expiry, no stale description while a valid PTR points at the "
+         "instance) is decided per run by mon_browser with a reference RFC 6762 cache (codes 60-64), including all intermediate states "
+         "of multi-record messages and simultaneous expiries. One open known finding (shared cache replayed by every browser) is "
+         "reported as KNOWN-FINDING.",
+         "DESIGN.md section 4 (C15/C19)", "Rocq proof over all worlds and handler invocations (provenance of every report) + reference-cache acceptor on implementation traces + differential correspondence"),
  "C16": ("Theorems (Properties_C16.v, over ResolverProofs.v / ResolverInv.v): the reports a response causes are exactly spec_reports - in record "
          "order the address of every A/AAAA record for exactly the name with nonzero TTL unless already reported (C16_response_reports), read "
          "declaratively as only-valid (C16_reports_only_valid) and every-valid (C16_every_valid_address_reported); over any sequence of "
